@@ -11,7 +11,9 @@ def _tables():
 def run(report):
     add_obs(report, _tables)
     verify_keys(report, ['parso.parser._token_to_transition', 'parso.python.parser.Parser.__init__', 'parso.parser.BaseParser.__init__',
-                         'parso.python.parser.Parser.convert_leaf'])
+                         'parso.python.parser.Parser.convert_leaf',
+                         # the engine step is the table step (invariants of the push loop), one leaf per token
+                         'parso.parser.BaseParser._add_token', 'parso.parser.BaseParser._pop', 'parso.parser.StackNode.__init__'])
     report.assume("M-LL1: tables satisfying plan-chain, FIRST-exactness, no-nullable and no-FOLLOW-conflict plus the "
                   "engine's stack invariant imply that every derivation is accepted and rebuilt (standard LL(1) argument "
                   "over the specification, not machine-checked)",
